@@ -292,6 +292,12 @@ def check_unbond(ctx, model):
         if sc[1] != "update" and time_keyed:
             ctx.ob("C08-B3", "%s|merge-reads-the-key-it-writes" % UNBOND, bool(load_keys) and all(k == save_key for k in load_keys),
                    "UNBOND is read under %s and saved under %s" % (load_keys, save_key), v.where(sb))
+        if sc[1] != "update" and time_keyed:
+            # ... on EVERY path to the write: a path that reaches the save without having read the record already stored
+            # under that key (e.g. the merge done only in the partial-unbond branch) overwrites it
+            lblocks = [lb for lb, _ in storage_calls(v, "whale_lair::state::UNBOND", ("may_load", "load"))]
+            ctx.ob("C08-B3", "%s|merge-on-every-path-to-the-write" % UNBOND, any(must_pass_through(v, lb, [sb]) for lb in lblocks),
+                   "every path entry -> UNBOND.save passes through an UNBOND read (%d read site(s))" % len(lblocks), v.where(sb))
         ctx.ob("C08-B3", "%s|time-keyed-write-merges" % UNBOND, (not time_keyed) or merges,
                "UNBOND key depends on the block time: %s; the saved amount merges an existing record at that key: %s" % (time_keyed, merges),
                v.where(sb))
